@@ -404,6 +404,21 @@ def _stacked_rows(nf, pv, sc):
         jf = im.get("fn", "").split(".")[-1]
         if jf in ("repeat", "tile") and len(im.get("args", [])) == 2 and not im.get("kws") and im["args"][1].canon() == args[1].canon():
             return ("interleaved" if jf == "repeat" else "tiled", im["args"][0].canon(), args[1].canon())
+        if jf in ("repeat", "tile") and len(im.get("args", [])) == 2 and not im.get("kws") and len(args) == 2:
+            # the target shape written as one value: (H, n) or (H,) + base.shape - the flat repetition of the per-step vector cut into H rows
+            shp, cnt, base = args[1], im["args"][1].canon(), im["args"][0].canon()
+            lead = None
+            if shp.elems is not None and len(shp.elems) == 2:
+                lead = shp.elems[0].canon()
+            else:
+                ls = [a_ for a_ in shp.atoms() if a_.startswith("(") and a_.endswith(")") and "," not in a_]
+                rest = [a_ for a_ in shp.atoms() if a_ not in ls]
+                # the trailing dimensions are the shape of the per-step vector (`x.shape`) or of the box it is a bound of (`space.shape` for
+                # `space.low` / `space.high`)
+                if len(ls) == 1 and len(shp.terms) == 2 and len(rest) == 1 and rest[0] in (f"{base}.shape", base.rsplit(".", 1)[0] + ".shape"):
+                    lead = ls[0][1:-1]
+            if lead is not None and lead == cnt:
+                return ("interleaved" if jf == "repeat" else "tiled", base, cnt)
     return None
 
 
@@ -1487,6 +1502,7 @@ def run(ck, repo: Repo, tier: str):
 
 _D, _T, _H, _C, _P = "rl_blox/algorithm/ddpg.py", "rl_blox/algorithm/td3.py", "rl_blox/blox/function_approximator/policy_head.py", "rl_blox/blox/cross_entropy_method.py", "rl_blox/algorithm/pets.py"
 MUTANTS = [
+    {"id": "c10-bounds-repeat-cut-by-shape-value", "file": "rl_blox/algorithm/pets.py", "rule": "R5", "find": '    lower_bound = jnp.vstack([action_space.low for _ in range(plan_horizon)])\n', "replace": '    rows = (plan_horizon,) + action_space.shape\n    lower_bound = jnp.repeat(action_space.low, plan_horizon).reshape(rows)\n'},
     {"id": "c10-bounds-interleaved", "file": "rl_blox/algorithm/pets.py", "rule": "R5", "find": "    lower_bound = jnp.vstack([action_space.low for _ in range(plan_horizon)])", "replace": "    lower_bound = jnp.repeat(jnp.asarray(action_space.low), plan_horizon).reshape(plan_horizon, -1)"},
     {"id": "c10-noise-clip-truthiness", "file": "rl_blox/algorithm/td3.py", "rule": "R2", "find": "    clipped_eps = jnp.clip(eps, -scaled_noise_clip, scaled_noise_clip)\n", "replace": "    clipped_eps = eps\n    if noise_clip:\n        clipped_eps = jnp.clip(eps, -scaled_noise_clip, scaled_noise_clip)\n"},
     {"id": "c10-cem-one-sided", "file": _C, "rule": "R4", "find": "        jnp.minimum((0.5 * lb_dist) ** 2, (0.5 * ub_dist) ** 2),", "replace": "        jnp.minimum((0.5 * lb_dist) ** 2, (0.5 * lb_dist) ** 2),"},
@@ -1532,6 +1548,7 @@ MUTANTS = [
     {'id': 'c10-mpc-initial-plan-conditional-argument-doubled', 'file': 'rl_blox/algorithm/pets.py', 'rule': 'R5', 'find': '    if config.init_with_previous_plan:\n        plan = state.prev_plan\n    else:\n        plan = jnp.broadcast_to(config.avg_act, state.prev_plan.shape)\n\n    plan = optimize_fn(state.dynamics_model, plan, opt_key, obs)\n', 'replace': '    plan = optimize_fn(\n        state.dynamics_model,\n        state.prev_plan if config.init_with_previous_plan else 2.0 * jnp.broadcast_to(config.avg_act, state.prev_plan.shape),\n        opt_key,\n        obs,\n    )\n'},
 ]
 BENIGN = [
+    {"id": "c10-b-bounds-tile-cut-by-shape-value", "file": "rl_blox/algorithm/pets.py", "find": '    lower_bound = jnp.vstack([action_space.low for _ in range(plan_horizon)])\n', "replace": '    rows = (plan_horizon,) + action_space.shape\n    lower_bound = jnp.tile(action_space.low, plan_horizon).reshape(rows)\n'},
     {"id": "c10-b-bounds-tile", "file": "rl_blox/algorithm/pets.py", "find": "    lower_bound = jnp.vstack([action_space.low for _ in range(plan_horizon)])", "replace": "    lower_bound = jnp.tile(action_space.low, (plan_horizon, 1))"},
     {"id": "c10-b-bounds-repeat-axis0", "file": "rl_blox/algorithm/pets.py", "find": "    upper_bound = jnp.vstack([action_space.high for _ in range(plan_horizon)])", "replace": "    upper_bound = jnp.repeat(action_space.high[None], plan_horizon, axis=0)"},
     {"id": "c10-b-noise-clip-zero-branch", "file": "rl_blox/algorithm/td3.py", "find": "    clipped_eps = jnp.clip(eps, -scaled_noise_clip, scaled_noise_clip)\n", "replace": "    clipped_eps = 0.0 * eps\n    if noise_clip:\n        clipped_eps = jnp.clip(eps, -scaled_noise_clip, scaled_noise_clip)\n"},
